@@ -473,6 +473,9 @@ func fill(v reflect.Value, name string, depth int) {
 	case t == timeType:
 		v.Set(reflect.ValueOf(Time(name)))
 		return
+	case t.ConvertibleTo(timeType) && t.Kind() == reflect.Struct:
+		v.Set(reflect.ValueOf(Time(name)).Convert(t))
+		return
 	case t == rawType:
 		v.Set(reflect.ValueOf(json.RawMessage(JSONAny(name))))
 		return
@@ -562,6 +565,8 @@ func deepEq(a, b reflect.Value) bool {
 	switch {
 	case t == timeType:
 		return a.Interface().(time.Time).Equal(b.Interface().(time.Time))
+	case t.ConvertibleTo(timeType) && t.Kind() == reflect.Struct:
+		return a.Convert(timeType).Interface().(time.Time).Equal(b.Convert(timeType).Interface().(time.Time))
 	case t == rawType:
 		ja, oka := ParseJSON(a.Bytes())
 		jb, okb := ParseJSON(b.Bytes())
